@@ -230,7 +230,10 @@ func (b *DirectoryBackend) osPath(path string) (string, error) {
 	fullPath := filepath.Join(b.root, pathSeparators.Replace(path))
 	// This is conservative check that "fullPath" is child of "b.root",
 	// catching any funny "../../../.." that we might accidentally get.
-	if fullPath != filepath.Clean(fullPath) {
+	// filepath.Join() returns a clean path, so compare it with the root:
+	// a relative path from the root that starts with ".." leads out of it.
+	relPath, err := filepath.Rel(b.root, fullPath)
+	if err != nil || relPath == ".." || strings.HasPrefix(relPath, ".."+string(os.PathSeparator)) {
 		b.log.WithField("path", path).Warn("invalid key path used")
 		return "", api.ErrInvalidPath
 	}
